@@ -153,7 +153,7 @@ def check(ctx):
             want_tr = ("proj", ("call", ("g", "numpy.where"), (mask,), ()), 0)
             full = ("slice", c(None), c(None), c(None))
             want_cls = ("call", ("a", ("a", SELF, "kernel_classes"), "map"),
-                        (("lambda", ("d",), ("s", n("d"), name_t)),), ())
+                        (("lambda", ("_l0_0",), ("s", n("_l0_0"), name_t)),), ())
             ok = (ident == name_t and transition == want_tr and codes_t is not None
                   and cls_ == want_cls
                   and codes_t[0] == "s" and codes_t[2] == ("tuple", (full, mask))
@@ -175,13 +175,14 @@ def check(ctx):
     ctx.ob("C19.R2", gel, "posterior_only selects exactly the POSTERIOR epochs of the "
                           "transition infos, otherwise all epochs", ok, stmt="phase selection")
     if ok:
-        none_ret = [rc for rc, rt_, _ in rg.returns
-                    if rt_ == ("call", ("g", "liesel.option.Option"), (c(None),), ())]
+        EMPTY = (("call", ("g", "liesel.option.Option"), (c(None),), ()),
+                 ("call", ("g", "liesel.option.Option.none"), (), ()))
+        none_ret = [rc for rc, rt_, _ in rg.returns if rt_ in EMPTY]
         is_none = ("call", ("a", post[0], "is_none"), (), ())
         ok_n = len(none_ret) == 1 and sorted(none_ret[0], key=str) == sorted(
             [(n("posterior_only"), True), (is_none, True)], key=str)
         full = [rt_ for rc, rt_, _ in rg.returns if is_call(rt_, "liesel.option.Option")
-                and rt_[2] != (c(None),)]
+                and rt_[2] != (c(None),) and rt_ not in EMPTY]
         ctx.ob("C19.R2", gel, "the posterior-only log is empty exactly when there are no "
                               "posterior transition infos; otherwise the assembled log is "
                               "returned", ok_n and len(full) == 1,
@@ -261,7 +262,7 @@ def check(ctx):
                       and kw(val, "error_code", 0) == code_t
                       and kw(val, "count_per_chain", 2) == count_t
                       and kw(val, "count_per_chain_posterior", 3) == c(None)
-                      and any(x == ("s", ("a", n("krn_cls"), "error_book"), code_t)
+                      and any(x == ("s", ("a", n("_l0_0"), "error_book"), code_t)
                               for x in subterms(kw(val, "error_msg", 1) or ()))
                       and any(l_[0] == "s" and l_[2] == ("a", kel, "kernel_ident") and v_ == loc[1]
                               for l_, v_, _, _ in rm.stores))
